@@ -32,8 +32,10 @@ def find_decoders(prog):
 
 
 class Extractor:
-    def __init__(self, model, fname):
+    def __init__(self, model, fname, access=None, exact_small=False):
         self.m = model
+        self.access = access          # enumerator value of the variable's access mode (default read-write)
+        self.exact_small = exact_small   # keep one-byte locals exact (needed to follow decoded values)
         self.it = model.ms.it
         self.fn = model.prog.functions[fname]
         self.fname = fname
@@ -111,6 +113,10 @@ class Extractor:
             elif is_lin(v) and v.is_const():
                 c = v.const
                 big = qt in ('unsigned long', 'long', 'size_t', 'uint64_t', 'int64_t', 'unsigned char', 'uint8_t')
+                if self.exact_small and qt in ('unsigned char', 'uint8_t'):
+                    big = False
+                    out.append((name, c))
+                    continue
                 if big and did in self.zero_tested:
                     out.append((name, 'zero' if c == 0 else 'pos'))
                 elif big and not (-2 <= c <= 3):
@@ -140,7 +146,8 @@ class Extractor:
         for p in self.params[1:]:
             s.mem[('L', 0, p['id'])] = ('ref', ('X', p['name']))
         E = self.m.prog.enums
-        s.facts.iv['VAR.access'] = (E['CAT_VAR_ACCESS_READ_WRITE'], E['CAT_VAR_ACCESS_READ_WRITE'])
+        acc = E['CAT_VAR_ACCESS_READ_WRITE'] if self.access is None else self.access
+        s.facts.iv['VAR.access'] = (acc, acc)
         s.facts.iv['VAR.data_size'] = (1000, 1000)
         s.facts.iv['DESC.buf_size'] = (64, 64)
         s.ghost[('byte', ('BUF',), Lin.c(0))] = Lin.c(c)
@@ -201,6 +208,65 @@ class Extractor:
                     outs.add(('next', self._key(s2)))
                 else:
                     outs.add(('fall', None))
+        return outs
+
+    def counter_local(self):
+        """the local that holds the decoded length: the one assigned to self->write_size"""
+        found = set()
+        for x in walk(self.fn['_body']):
+            if x.get('kind') == 'BinaryOperator' and x.get('opcode') == '=':
+                a, b = x['inner']
+                while a.get('kind') in ('ParenExpr', 'ImplicitCastExpr'):
+                    a = a['inner'][0]
+                while b.get('kind') in ('ParenExpr', 'ImplicitCastExpr', 'CStyleCastExpr'):
+                    b = b['inner'][0]
+                if a.get('kind') == 'MemberExpr' and a.get('name') == 'write_size' and b.get('kind') == 'DeclRefExpr':
+                    found.add(b['referencedDecl']['id'])
+        if len(found) != 1:
+            raise AnalysisBroken('decoder %s: cannot tell which local is the decoded length (%d candidates)' % (self.fname, len(found)))
+        return found.pop()
+
+    def step_fx(self, key, c):
+        """outcomes of one iteration together with what it did to the variable:
+        set of (outcome, stores, counter delta, reported length) where stores is a tuple of
+        (offset relative to the decoded length before the step, value stored) and the reported
+        length is relative to the decoded length as well; None where nothing happened"""
+        from .interp import trace_paths
+        cid = self.counter_local()
+        s = self._make(key, c)
+        c0 = s.mem.get(('L', 0, cid))
+        inner = self.loop['inner']
+        body = inner[-1]
+        cond = inner[0] if self.loop['kind'] == 'WhileStmt' else inner[2]
+        outs = set()
+        ts, fs = self.it.branch(cond, s) if cond else ([s], [])
+        for s1 in fs:
+            outs.add((('fall', None), (), None, None))
+
+        def rel(v):
+            if not is_lin(v) or not is_lin(c0):
+                return '?'
+            d = v.sub(c0)
+            return d.const if d.is_const() else '?'
+
+        def cv(v):
+            return (v.const & 0xFF) if is_lin(v) and v.is_const() else '?'
+        for s1 in ts:
+            for s2, sig in self.it.exec_stmt(body, s1):
+                if sig is not None and sig[0] == 'return':
+                    rv = sig[1]
+                    oc = ('ret', rv.const if is_lin(rv) and rv.is_const() else '?')
+                elif sig is None or sig[0] == 'continue':
+                    oc = ('next', self._key(s2))
+                else:
+                    oc = ('fall', None)
+                c1 = s2.mem.get(('L', 0, cid))
+                dcount = rel(c1) if oc[0] == 'next' else None
+                keep = lambda e: (e['k'] == 'wr' and e['region'][0] == 'vdata') or (e['k'] == 'st' and e.get('loc') == ('S', 'write_size'))
+                for seq in trace_paths(s2.trace, limit=2000, keep=keep):
+                    stores = tuple((rel(e['off']), cv(e['val']) if e.get('val') is not None else '?') for e in seq if e['k'] == 'wr')
+                    ws = [rel(e['val']) for e in seq if e['k'] == 'st']
+                    outs.add((oc, stores, dcount, ws[-1] if ws else None))
         return outs
 
     def automaton(self, chars=None):
@@ -336,6 +402,111 @@ def compare(extractor, ref, chars=None):
             p = pairs.get((p[0], p[1]))
         out.append((bytes(x & 0xFF for x in reversed(w)), msg))
     return out, len(pairs), ntr, len(order)
+
+
+# ---- what the decoders must write (from the property text: "holds precisely the decoded bytes") ----
+def out_string(state, c):
+    """state as in ref_string -> ('byte', b) | ('end',) | None"""
+    if state == 1 and c not in (NUL, 92, 34):
+        return ('byte', c)
+    if state == 2 and c in (92, 34, 110):
+        return ('byte', {92: 92, 34: 34, 110: 10}[c])
+    if state == 3 and c in (NUL, COMMA):
+        return ('end', True)      # terminator stored at the decoded length
+    return None
+
+
+def _hexval(c):
+    return c - 48 if _is_digit(c) else (c | 32) - 97 + 10
+
+
+def ref_hexbuf_v(state, c):
+    """ref_hexbuf with the pending high nibble in the state: (phase, hi)"""
+    ph, hi = state
+    r = ref_hexbuf(ph, c)
+    if r[0] != 'next':
+        return r
+    return ('next', (r[1], _hexval(c) if r[1] in (1, 3) else 0))
+
+
+def out_hexbuf(state, c):
+    ph, hi = state
+    if ph in (1, 3) and _is_hex(c):
+        return ('byte', hi * 16 + _hexval(c))
+    if ph == 2 and c in (NUL, COMMA):
+        return ('end', False)     # no terminator for byte buffers
+    return None
+
+
+OUT_REFS = {'string': (ref_string, out_string, 0), 'hexbuf': (ref_hexbuf_v, out_hexbuf, (0, 0))}
+
+
+def compare_out(extractor, kind, chars=None):
+    """product of the decoder (with its effects on the variable) and the reference transducer;
+    returns (disagreements with witness texts, #product states, #steps compared)"""
+    ref, outf, r0 = OUT_REFS[kind]
+    chars = chars if chars is not None else list(range(-128, 128))
+    init = extractor.initial()
+    pairs = {(init, r0): None}
+    work = [(init, r0)]
+    bad = []
+    ntr = 0
+    memo = {}
+    while work:
+        k, r = work.pop()
+        for c in chars:
+            ntr += 1
+            cu = c & 0xFF
+            want = ref(r, cu if cu < 128 else 200)
+            emit = outf(r, cu if cu < 128 else 200)
+            if (k, c) not in memo:
+                memo[(k, c)] = extractor.step_fx(k, c)
+            got = memo[(k, c)]
+            ocs = set(g[0] for g in got)
+            if len(ocs) != 1:
+                bad.append((k, r, c, 'non-deterministic or ill-formed step: %s' % sorted(map(str, ocs))))
+                continue
+            oc = next(iter(ocs))
+            if oc[0] != want[0] or (oc[0] == 'ret' and oc[1] != want[1]):
+                # the language itself differs: reported by the grammar rule, not here
+                continue
+            for _, stores, dcount, ws in got:
+                if oc[0] == 'ret' and oc[1] == -1:
+                    continue      # a rejected text: what was stored before does not matter (C05 speaks of success)
+                if emit is None:
+                    if stores or (dcount not in (None, 0)):
+                        bad.append((k, r, c, 'stores %s / advances the decoded length by %s where the grammar decodes nothing' % (list(stores), dcount)))
+                elif emit[0] == 'byte':
+                    b = cu if cu >= 128 else emit[1]     # (high bytes stand for themselves)
+                    if stores != ((0, b),) or dcount != 1:
+                        bad.append((k, r, c, 'stores %s and advances the decoded length by %s; expected the byte 0x%02x at the decoded length and an advance of 1' % (list(stores), dcount, b)))
+                else:
+                    exp = ((0, 0),) if emit[1] else ()
+                    if stores != exp or ws != 0:
+                        bad.append((k, r, c, 'at the end of the text stores %s and reports length (decoded length %+s); expected %s and the decoded length itself'
+                                    % (list(stores), ws, 'the terminator at the decoded length' if emit[1] else 'no store')))
+            if oc[0] == 'next':
+                nk = (oc[1], want[1])
+                if nk not in pairs:
+                    if len(pairs) > 400:
+                        raise AnalysisBroken('decoder %s: more than 400 product states' % extractor.fname)
+                    pairs[nk] = (k, r, c)
+                    work.append(nk)
+    out = []
+    seen = set()
+    for k, r, c, msg in bad:
+        if msg in seen:
+            continue
+        seen.add(msg)
+        w = [c]
+        p = pairs.get((k, r))
+        while p is not None:
+            w.append(p[2])
+            p = pairs.get((p[0], p[1]))
+        out.append((bytes(x & 0xFF for x in reversed(w)), msg))
+        if len(out) >= 6:
+            break
+    return out, len(pairs), ntr
 
 
 def _show(g):
